@@ -160,7 +160,8 @@ def run(ctx: Ctx) -> int:
 	tables = [json.loads(line) for line in res.lines('TABLE ')]
 	for i, tab in enumerate(tables[:: 3 if quick else 1]):
 		jobs.append((f'table:{i}', {'vm_tab': program_of_table(tab['rows'])}, 'vm_tab'))
-	real = ['example.json', 'rogw.tranp.compatible.libralies.classes'] if quick else ['example.json', 'example.FW.string', 'rogw.tranp.compatible.libralies.classes', 'rogw.tranp.compatible.libralies.type', 'tests.unit.rogw.tranp.implements.cpp.transpiler.fixtures.fixture_py2cpp', 'tests.unit.rogw.tranp.semantics.fixtures.fixture_reflections', 'rogw.tranp.lang.di', 'rogw.tranp.errors']
+	from harness import real_modules
+	real = real_modules.QUICK if quick else real_modules.LOAD_OK
 	for m in real:
 		jobs.append((f'real:{m}', {}, m))
 	with ProcessPoolExecutor(max_workers=16) as ex:
